@@ -3,7 +3,7 @@
 cd "$(dirname "$0")/.."
 tag=$1; slot=$2; id=$3; dir=$4; checks=${5:-$id}
 for k in 1 2 3; do
-  src=/tmp/mut/${id}d/_out/mut$k
+  src=/tmp/mut/${id}${SUF:-d}/_out/mut$k
   [ -f $src/patch.diff ] || continue
   d=$dir
   # a demo that says `package csm` belongs into internal/csm, `package quartz_test`/`quartz` into quartz, ...
